@@ -380,6 +380,21 @@ def run(tier, seed):
                 run.fail(case, "load_schema: canonical form differs from parsing the types inlined at first use", kind="oracle")
                 shutil.rmtree(d, ignore_errors=True)
                 continue
+            if i % 3 == 0:
+                for how, cwd, path_ in (("relative", base, os.path.join("g%d" % i, names[0] + ".avsc")), ("bare-file-name", d, names[0] + ".avsc")):
+                    old_cwd = os.getcwd()
+                    try:
+                        os.chdir(cwd)
+                        lc2 = to_parsing_canonical_form(load_schema(path_))
+                    except Exception as e:  # noqa
+                        lc2 = "ERR:" + repr(e)[:200]
+                    finally:
+                        os.chdir(old_cwd)
+                    run.cov["evaluations"] += 1
+                    run.tag("complete:" + how)
+                    if lc2 != ref_canon:
+                        run.fail(dict(case, path_spelling=how, loaded=lc2, inlined=ref_canon),
+                                 "load_schema with the root file's path spelled relative to the working directory differs from the inlined schema", kind="oracle")
             # same encoding of every datum
             bad = False
             for k in range(3):
@@ -427,14 +442,28 @@ def run(tier, seed):
                 write_files(d2, names, defs, skip=miss)
                 run.cov["evaluations"] += 1
                 run.tag("missing-file")
-                try:
-                    load_schema(os.path.join(d2, names[0] + ".avsc"))
-                    run.fail(dict(case, missing=miss, tags=case["tags"] + ["missing"]), "load_schema succeeds although a needed file is missing", kind="oracle")
-                except Exception as e:  # noqa
-                    msg = str(e)
-                    if miss not in msg and miss.rpartition(".")[2] not in msg:
-                        run.fail(dict(case, missing=miss, error=repr(e)[:300], tags=case["tags"] + ["missing"]),
-                                 "the error for a missing file does not name the missing type", kind="oracle")
+                # the path of the root file spelled three ways: absolute, relative to the parent directory, a bare file name
+                # with the repository as the working directory
+                spellings = [("absolute", None, os.path.join(d2, names[0] + ".avsc"))]
+                if i % 2 == 0:
+                    spellings += [("relative", os.path.dirname(d2), os.path.join(os.path.basename(d2), names[0] + ".avsc")),
+                                  ("bare-file-name", d2, names[0] + ".avsc")]
+                for how, cwd, path_ in spellings:
+                    old_cwd = os.getcwd()
+                    try:
+                        if cwd:
+                            os.chdir(cwd)
+                        load_schema(path_)
+                        run.fail(dict(case, missing=miss, path_spelling=how, tags=case["tags"] + ["missing"]),
+                                 "load_schema succeeds although a needed file is missing", kind="oracle")
+                    except Exception as e:  # noqa
+                        msg = str(e)
+                        if miss not in msg and miss.rpartition(".")[2] not in msg:
+                            run.fail(dict(case, missing=miss, path_spelling=how, error=repr(e)[:300], tags=case["tags"] + ["missing"]),
+                                     "the error for a missing file does not name the missing type", kind="oracle")
+                    finally:
+                        os.chdir(old_cwd)
+                    run.tag("missing-file:" + how)
                 shutil.rmtree(d2, ignore_errors=True)
             # model: _inject_schema on (outer = root definition, inner = each directly needed definition)
             for n, df in zip(names[1:], defs[1:]):
